@@ -52,6 +52,11 @@ static void run(const Script& s) {
                 if ((a > b) != (b < a)) bad += " GT";
                 if ((a <= b) != !(b < a)) bad += " LE";
                 if ((a >= b) != !(a < b)) bad += " GE";
+                // the same relations through const objects and const references (overload resolution must not fall back on the
+                // conversion to an integer in network byte order)
+                { const IPv4Address ca = a, cb = b; const IPv4Address& ra = a;
+                  if ((ca < cb) != (a < b) || (ca > cb) != (a > b) || (ca <= cb) != !(b < a) || (ca >= cb) != !(a < b) || (ca == cb) != (a == b) || (ca != cb) != (a != b)) bad += " CONST";
+                  if ((ra <= b) != !(b < a) || (ra >= cb) != !(a < b) || (ca <= b) != !(b < a)) bad += " CONSTREF"; }
                 printf("%d %d%s\n", a < b ? 1 : 0, a == b ? 1 : 0, bad.c_str());
             } else if (op == "v4ops") {
                 IPv4Address a = v4((uint32_t)num(t[1])), m = v4((uint32_t)num(t[2]));
@@ -88,6 +93,7 @@ static void run(const Script& s) {
                     if ((a <= b) != !(b < a)) bad += " LE";
                     if ((a >= b) != !(a < b)) bad += " GE";
                     if ((a != b) == (a == b)) bad += " NEQ";
+                    { const HW ca = a, cb = b; if ((ca < cb) != (a < b) || (ca > cb) != (a > b) || (ca <= cb) != !(b < a) || (ca >= cb) != !(a < b) || (ca == cb) != (a == b)) bad += " CONST"; }
                     printf("%d %d%s\n", a < b ? 1 : 0, a == b ? 1 : 0, bad.c_str());
                 } else {
                     IPv6Address a(x.data()), b(y.data());
@@ -98,6 +104,7 @@ static void run(const Script& s) {
                     if ((a <= b) != !(b < a)) bad += " LE";
                     if ((a >= b) != !(a < b)) bad += " GE";
                     if ((a != b) == (a == b)) bad += " NEQ";
+                    { const IPv6Address ca = a, cb = b; if ((ca < cb) != (a < b) || (ca > cb) != (a > b) || (ca <= cb) != !(b < a) || (ca >= cb) != !(a < b) || (ca == cb) != (a == b)) bad += " CONST"; }
                     printf("%d %d%s\n", a < b ? 1 : 0, a == b ? 1 : 0, bad.c_str());
                 }
             } else if (op == "bufrng") {
